@@ -61,12 +61,38 @@ static void handler(const Line& t, Out& o) {
     src.scripted.push_front(0);
     put_sorted(s.get_result(), o);
     break; }
-  case 5: { // iterate
+  case 5: { // iterate in several styles under the SAME draw; all must give the same sequence
     sk_t& s = get(t.at(1));
     o.R(vh::dbits(s.get_c()));
-    std::vector<int64_t> v;
-    for (auto it = s.begin(); it != s.end(); ++it) v.push_back(*it);
-    put_sorted(v, o);
+    // the draw the first begin() is going to take is fixed in advance, so that a second begin() can be given the same one
+    Out* saved = src.out; src.out = nullptr; const double u = src.unit_double(); src.out = saved;
+    src.scripted.push_front(vh::dbits(u));
+    std::vector<std::vector<int64_t>> walks;
+    {
+      auto b0 = s.begin(); const auto e = s.end();                     // logs the draw (E), once
+      std::vector<int64_t> w;
+      { auto it = b0; for (; it != e; ++it) w.push_back(*it); }          // a COPY of the iterator, pre-increment
+      walks.push_back(w); w.clear();
+      { auto it = b0; for (; it != e; it++) w.push_back(*it); }          // a copy, post-increment (result unused)
+      walks.push_back(w); w.clear();
+      walks.push_back(std::vector<int64_t>(b0, e));                       // built by the library from copies
+      { typedef decltype(s.begin()) it_t; it_t it(b0); std::vector<it_t> held(1, it);  // a copy stored in a container
+        for (auto& h = held[0]; h != e; ++h) w.push_back(*h); }
+      walks.push_back(w); w.clear();
+      for (; b0 != e; ++b0) w.push_back(*b0);                            // the iterator itself, pre-increment
+      walks.insert(walks.begin(), w); w.clear();
+    }
+    {
+      src.scripted.push_front(vh::dbits(u)); src.out = nullptr;          // a second begin() with the same draw, not logged
+      std::vector<int64_t> w;
+      try { for (int64_t x : s) w.push_back(x); } catch (...) { src.out = saved; throw; }
+      src.out = saved;
+      walks.push_back(w);
+    }
+    // report the first style that deviates from the plain walk (the oracle judges it like any other result), else the plain walk
+    size_t pick = 0;
+    for (size_t i = 1; i < walks.size(); ++i) if (walks[i] != walks[0]) { pick = i; break; }
+    put_sorted(walks[pick], o);
     break; }
   case 6: { // merge r r2 mode
     if (t.at(1) == t.at(2)) { o.R(-2); break; }
